@@ -121,6 +121,12 @@ func UnpackRule(rule []string) (map[string]string, error) {
 
 		}
 
+		// The artifact type must be one of MATERIALS or PRODUCTS
+		if dstType != "materials" && dstType != "products" {
+			return nil,
+				fmt.Errorf("%s Got:\n\t %s", errorMsg, rule)
+		}
+
 		return map[string]string{
 			"type":      ruleLower[0],
 			"pattern":   rule[1],
